@@ -47,6 +47,7 @@ fn pathset(p: &Paths) -> PathSet {
 struct Prog {
     log: Vec<String>,
     refused: Option<String>,
+    revisits: u32,
 }
 
 impl Prog {
@@ -81,6 +82,15 @@ async fn fill_role(ed: &mut RepositoryEditor, d: &DelegSpec, r: &mut Rng, p: &mu
         ed.remove_target(&TargetName::new(dn.clone()).unwrap()).map_err(|e| client::full_error(&e))?;
         p.op(format!("add_target({dn:?}); remove_target({dn:?})"));
     }
+    // detour over two visits: a target that is signed into the role first, and on a second visit
+    // replaced (added again with other content) and then removed - it must be gone in the end
+    let victim = r.chance(1, 3).then(|| match &d.paths {
+        Paths::Patterns(v) => v[0].replace('*', "zz-victim.bin"),
+        _ => "zz-victim.bin".to_string(),
+    });
+    if let Some(vn) = &victim {
+        ed.add_target(vn.as_str(), mk_target(&TargetSpec::new("zz-victim.bin", b"first content"))).map_err(|e| client::full_error(&e))?;
+    }
     for t in &d.targets {
         ed.add_target(t.name.as_str(), mk_target(t)).map_err(|e| format!("add_target({:?}): {}", t.name, client::full_error(&e)))?;
     }
@@ -96,6 +106,18 @@ async fn fill_role(ed: &mut RepositoryEditor, d: &DelegSpec, r: &mut Rng, p: &mu
         .await
         .map_err(|e| format!("sign_targets_editor({:?} with keys {:?}): {}", d.name, signers, client::full_error(&e)))?;
     p.op(format!("sign_targets_editor({:?}, keys {:?})", d.name, signers));
+    if let Some(vn) = &victim {
+        ed.change_delegated_targets(&d.name).map_err(|e| format!("second change_delegated_targets({:?}): {}", d.name, client::full_error(&e)))?;
+        ed.targets_version(nz(d.version)).map_err(|e| e.to_string())?;
+        ed.targets_expires(far()).map_err(|e| e.to_string())?;
+        ed.add_target(vn.as_str(), mk_target(&TargetSpec::new("zz-victim.bin", b"second, longer content"))).map_err(|e| client::full_error(&e))?;
+        ed.remove_target(&TargetName::new(vn.clone()).unwrap()).map_err(|e| client::full_error(&e))?;
+        ed.sign_targets_editor(&sources(&signers))
+            .await
+            .map_err(|e| format!("second sign_targets_editor({:?}): {}", d.name, client::full_error(&e)))?;
+        p.op(format!("second visit of {:?}: add_target({vn:?}) [replaces the signed entry]; remove_target({vn:?}); sign_targets_editor", d.name));
+        p.revisits += 1;
+    }
     for c in &d.children {
         fill_role(ed, c, r, p, skip_resign_undersigned).await?;
     }
@@ -367,7 +389,7 @@ fn run_case(w: &mut Worker, i: u64) -> CaseOut {
     let publish = if r.bool() { Publish::Copy } else { Publish::Link };
     let dir = w.case_dir();
     let wd = client::watchdog(w.cfg.tier);
-    let mut p = Prog { log: vec![], refused: None };
+    let mut p = Prog { log: vec![], refused: None, revisits: 0 };
     let final_keys: Vec<usize> = if snap_dup {
         vec![0, 1, 2, 2, 3]
     } else if snap2 {
@@ -400,6 +422,9 @@ fn run_case(w: &mut Worker, i: u64) -> CaseOut {
         }
         Ok(Ok(wr)) => {
             out.h("editor-accepted");
+            if p.revisits > 0 {
+                out.h("role-revisited:replace-then-remove");
+            }
             if inadequate_final {
                 notes.push("sign succeeded although the snapshot key was missing".into());
             }
@@ -604,10 +629,16 @@ fn cross_party(w: &mut Worker, spec: &RepoSpec, d: &DelegSpec, wr: &Written, rep
     let newname = format!("{prefix}from-role-holder.bin");
     let newt = TargetSpec::new(&newname, b"added by the role holder");
     let signers = d.signers.clone().unwrap_or_else(|| d.keys.clone());
+    let removed: Option<TargetSpec> = if r.bool() { d.targets.first().cloned() } else { None };
     // genuine incoming metadata, produced with the library's own TargetsEditor
     let gen: Result<(), String> = w.rt.block_on(async {
         let mut te = TargetsEditor::from_repo(repo, &d.name).map_err(|e| client::full_error(&e))?;
         te.add_target(newname.as_str(), mk_target(&newt)).map_err(|e| client::full_error(&e))?;
+        if let Some(t) = &removed {
+            // replace an existing target, then think better of it and remove it altogether
+            te.add_target(t.name.as_str(), mk_target(&TargetSpec::new(&t.name, b"replacement by the role holder"))).map_err(|e| client::full_error(&e))?;
+            te.remove_target(&TargetName::new(t.name.clone()).map_err(|e| e.to_string())?);
+        }
         te.version(nz(d.version + 1)).expires(far());
         let s = te.sign(&sources(&signers)).await.map_err(|e| client::full_error(&e))?;
         s.write(&incoming, false).await.map_err(|e| client::full_error(&e))?;
@@ -711,6 +742,26 @@ fn cross_party(w: &mut Worker, spec: &RepoSpec, d: &DelegSpec, wr: &Written, rep
                         let has = rp.delegated_role(&d.name).and_then(|x| x.targets.as_ref()).map_or(false, |t| t.signed.targets.keys().any(|n| n.raw() == newname));
                         if !has {
                             out.viol("incorporated-role-lost-content", format!("{newname:?} missing from role {:?} after update", d.name));
+                        }
+                        // exactly: the role's targets, minus the one the role holder removed, plus the new one
+                        if let Some(t) = rp.delegated_role(&d.name).and_then(|x| x.targets.as_ref()) {
+                            let mut got: Vec<String> = t.signed.targets.keys().map(|n| n.raw().to_string()).collect();
+                            let mut want: Vec<String> = d.targets.iter().filter(|x| removed.as_ref().map_or(true, |r| r.name != x.name)).map(|x| x.name.clone()).collect();
+                            want.push(newname.clone());
+                            got.sort();
+                            want.sort();
+                            want.dedup();
+                            if got != want {
+                                let extra: Vec<&String> = got.iter().filter(|g| !want.contains(g)).collect();
+                                let missing: Vec<&String> = want.iter().filter(|g| !got.contains(g)).collect();
+                                out.viol(
+                                    format!("incorporated-role-differs:extra={}:missing={}", !extra.is_empty(), !missing.is_empty()),
+                                    format!("role {:?} after the role holder's edit (removed: {:?}): unexpected {extra:?}, missing {missing:?}", d.name, removed.as_ref().map(|t| &t.name)),
+                                );
+                            }
+                            if removed.is_some() {
+                                out.h("cross-party:replace-then-remove-by-role-holder");
+                            }
                         }
                         out.h("cross-party:incorporated-and-reloaded");
                     }
